@@ -91,6 +91,7 @@ MUTANTS = [
     ('C06', 'done-handler-kept', (R, MANAGER, "        self.removeHandler(_on_done_handler, '%s_done' % event_name)\n\n        if state.event is not None:", "        if state.event is not None:"), 'C06.a'),
     ('C06', 'caller-not-continued', (R, MANAGER, "            if parent:\n                self.registerTask((event, parent, None))\n            elif hasattr(task, 'task'):", "            if hasattr(task, 'task'):"), 'C06.b'),
     # ---- C07
+    ('C07', 'revert-nested-pending', ('revert', '4ee7251'), 'C07.f'),
     ('C07', 'no-drain', (R, MANAGER, "        self.root._queue.drainFrom(component._queue)\n", ""), 'C07.d'),
     ('C07', 'no-root-recursion', (R, COMPONENTS, "        for c in self.components:\n            c._updateRoot(root)\n", ""), 'C07.b'),
     ('C07', 'no-pending-guard', (R, COMPONENTS, "        if self.unregister_pending or self.parent is self:", "        if self.parent is self:"), 'C07.c'),
